@@ -121,7 +121,7 @@ def run_unit(A, unit, rep, tier):
                         for a_ in list(x.args[2]) + [v_ for _, v_ in x.args[3]]:
                             if isinstance(a_, Val) and a_.kind == "param":
                                 stored.add(a_.args[0])
-        for r in [n for n in live(g) if n.kind == "ret" and len(n.stack) == 1]:
+        for r in [n for n in live(g) if n.kind == "ret" and depth(n) == 1]:
             v = r["value"]
             alts = v.args if v.kind == "phi" else (v,)
             bad = [a_ for a_ in alts if a_.kind == "param" and a_.args[0] in stored]
@@ -195,7 +195,7 @@ def check_convert(A, rep):
         # a bare return of the argument is only allowed on the non-collection branch
         noncoll = [n.id for n in live(g) if n.kind == "arm" and n["arm"] is False and any(x.kind == "call" and x.args[0] == "get_type" and x.args[1] is not None and x.args[1].kind == "global" and "collection" in str(x.args[1].args[1]).lower() for x in g.nodes[n["branch"]]["cond"].walk())]
         coll_arms = [n.id for n in live(g) if n.kind == "arm" and n["arm"] is True and n["branch"] in {g.nodes[a]["branch"] for a in noncoll}]
-        for r in [n for n in live(g) if n.kind == "ret" and len(n.stack) == 1]:
+        for r in [n for n in live(g) if n.kind == "ret" and depth(n) == 1]:
             v = r["value"]
             alts = v.args if v.kind == "phi" else (v,)
             if any(a.kind == "param" for a in alts):
